@@ -1635,8 +1635,6 @@ class WassersteinVectorizer(BaseEstimator, TransformerMixin):
                     "distribution matrix must have as many columns as there are vectors"
                 )
 
-            X = normalize(X, norm="l1")
-
             if self.method == "HeuristicLinearAlgebra":
                 # self.fit_transform(X, y, vectors=vectors, **fit_params)
                 self.vectors_ = vectors
@@ -1653,6 +1651,7 @@ class WassersteinVectorizer(BaseEstimator, TransformerMixin):
                 self.embedding_ = u * np.sqrt(self.singular_values_)
             # LOT use cases depend on reference_vectors
             else:
+                X = normalize(X, norm="l1")
                 if reference_vectors is None:
                     if (self.reference_size is None) and (self.method == "LOT_exact"):
                         reference_size = int(
